@@ -81,6 +81,37 @@ def parse_kv(rest):
     return pos, kv
 
 
+def import_contract(unit_file, relpath, qual):
+    lines = open(unit_file).read().split("\n")
+    req, ens, cur, buf, inside = "", [], None, [], False
+    def close():
+        nonlocal req, cur, buf
+        if cur is None: return
+        if cur[0] == "requires": req += "\n".join(buf) + "\n"
+        elif cur[0] == "ensures": ens.append((cur[1], "\n".join(buf)))
+        cur = None; buf = []
+    for l in lines:
+        m = DIRECTIVE.match(l)
+        if m:
+            d, rest = m.group(1), m.group(2).strip()
+            if d == "fn":
+                close()
+                pos, kv = parse_kv(rest)
+                inside = (pos[0] == relpath and pos[1] == qual and "xb" not in pos[2:] and "from" not in kv)
+                continue
+            if not inside: continue
+            close()
+            if d in ("requires", "ensures"): cur = (d, rest)
+            elif d == "end": inside = False
+            else: cur = ("other", rest)
+        elif inside and cur is not None:
+            buf.append(l)
+    close()
+    if not ens:
+        raise Inconclusive(f"contract import: {relpath}::{qual} has no proved contract in {unit_file}")
+    return req, ens
+
+
 def assemble(unit_path, variant=None):
     """variant: None | ('vacuity', fnqual) | ('carve', {fnqual: region_text})"""
     A = Assembled()
@@ -112,7 +143,10 @@ def assemble(unit_path, variant=None):
             end = len(A.lines)
             A.rewrites += log
             mode = "M3" if ann.get("slice_k") is not None else ("M2" if (ann.get("replaces") or ann.get("maploops") or ann.get("forloops")) else "M1")
-            if ann.get("external_body"):
+            if ann.get("imported_from"):
+                mode = "ASSUMED"
+                A.trusted.append(f"contract of {p['relpath']}::{qual} imported verbatim from unit {ann['imported_from']} where it is PROVED")
+            elif ann.get("external_body"):
                 mode = "ASSUMED"
                 A.trusted.append(f"assumed contract (body not verified): {p['relpath']}::{qual}")
             A.fns.append({"qual": qual, "file": p["relpath"], "repo_line": X._srcline(src, it["span"][0]),
@@ -167,6 +201,8 @@ def assemble(unit_path, variant=None):
             ann.setdefault("loopheads", {})[arg] = text
         elif name == "head":
             ann["head"] = (ann.get("head") or "") + text
+        elif name == "tail":
+            ann["tail"] = (ann.get("tail") or "") + text
         elif name == "before":
             ann.setdefault("before_let", {})[arg] = text
         elif name == "after":
@@ -199,7 +235,7 @@ def assemble(unit_path, variant=None):
         d, rest = m.group(1), m.group(2).strip()
         if d != "use":
             flush_groups()
-        if d in ("requires", "ensures", "closure", "loop", "maploop", "forloop", "looptail", "loophead", "head", "before", "after", "replace", "with", "decreases"):
+        if d in ("requires", "ensures", "closure", "loop", "maploop", "forloop", "looptail", "loophead", "head", "tail", "before", "after", "replace", "with", "decreases"):
             close_section()
             if pending is None:
                 raise Inconclusive(f"{unit_path}:{i+1}: //@{d} outside //@fn")
@@ -220,6 +256,13 @@ def assemble(unit_path, variant=None):
                 if "rename" in kv: ann["rename"] = kv["rename"]
                 if "slice" in kv: ann["slice_k"] = int(kv["slice"])
                 if "xb" in flags: ann["external_body"] = True
+                if "from" in kv:
+                    # contract PROVED in another unit: copy its requires/ensures verbatim (labels become proved_in:<unit>:<label>)
+                    req, ens = import_contract(os.path.join(VERIF, "units", kv["from"] + ".vu"), relpath, qual)
+                    ann["external_body"] = True
+                    ann["requires"] = req
+                    ann["ensures"] = [("proved_in." + kv["from"] + "." + l.replace(".", "_"), t) for (l, t) in ens]
+                    ann["imported_from"] = kv["from"]
                 if "inherent" in flags: ann["inherent"] = True
                 if "keepattrs" in flags: ann["drop_response_attrs"] = False
                 pending = {"kind": "fn", "relpath": relpath, "qual": qual, "ann": ann}
